@@ -121,3 +121,25 @@ impl EncoderWork {
             .undo_last_chunk_encoding(self.shard_bytes, 0..self.recovery_count);
     }
 }
+
+// ======================================================================
+// EncoderWork - verification builds
+
+#[cfg(feature = "verif-hooks")]
+impl EncoderWork {
+    /// Read-only view of the internal state.
+    pub fn verif_view(&self) -> crate::verif_hooks::EncoderWorkView {
+        crate::verif_hooks::EncoderWorkView {
+            original_count: self.original_count,
+            recovery_count: self.recovery_count,
+            shard_bytes: self.shard_bytes,
+            original_received_count: self.original_received_count,
+            shards: self.shards.verif_view(),
+        }
+    }
+
+    /// The whole working memory.
+    pub fn verif_data(&self) -> &[[u8; 64]] {
+        self.shards.verif_data()
+    }
+}
